@@ -13,6 +13,7 @@ import BtcwVerif.Lemmas.SyncTipEvolve
 import BtcwVerif.Lemmas.SyncTipStartup
 import BtcwVerif.Lemmas.SyncTipCompose
 import BtcwVerif.Lemmas.SyncTipNotify
+import BtcwVerif.Lemmas.SyncTipRescan
 namespace SyncTip
 
 /-- Chains are lists with parent links: the same hash at height `h` means the same chain below `h`. -/
@@ -339,5 +340,121 @@ example : (evolveN cfg1 ((genesisWallet C1, {}), []) steps1).1.2.sent =
 example : (evolveN cfg1 ((genesisWallet C1, {}), []) (steps1 ++ [.extend 5 .filtered])).1.2.sent.getLast? =
       some { attached := [⟨1, some [3], []⟩, ⟨2, some [4, 3], []⟩, ⟨3, some [5, 4, 3], []⟩],
              detached := [some [2, 1], some [1]] } := by decide
+
+/-! ### Rescans on a running wallet: backend reconnects and key imports (round-2 seeds C02-4, C15-5)
+
+A second `chain.ClientConnected` runs `syncWithChain` again on the running wallet (`resync`); `ImportPrivateKey(…,
+rescan = true)` submits a rescan without touching the chain state.  In both cases the wallet stays chain-synced, the
+backend answers with `RescanFinished` some time later (`rescanInFlight`), and block notifications keep arriving in
+between.  Quantification: every wallet in sync (`Inv`), every valid evolution before and after `RescanFinished`, every
+height/chain the `RescanFinished` may carry (see the hypothesis), every recovery window and batch size. -/
+
+/-- `RescanFinished` on a wallet in sync changes nothing (it only re-asserts `chainSynced`). -/
+theorem C15_rescan_finished_in_sync_noop (cfg : Cfg) {w : Wallet} {tip : BlockId} {lo : Nat} (hI : Inv cfg w tip lo)
+    (now : BlockId) (n : Nat) (h : n ≤ tip.length ∨ now.length ≤ tip.length) :
+    handle cfg w (.rescanFinished now n) = w :=
+  rescanFinished_noop hI now n h
+
+/-- **A rescan in flight does not disturb the tip tracking.**  Whatever valid evolution `s1` the backend goes through
+    between the rescan request and `RescanFinished`, and `s2` afterwards, the wallet ends exactly where the evolution
+    `s1 ++ s2` alone would have left it — in sync with the backend's final chain (`Inv`: synced-to stamp = tip, remembered
+    hashes = best chain, no transaction confirmed in a block off the best chain).  Hypothesis on what `RescanFinished`
+    carries: the wallet is by then at least as high as the chain the rescan was requested for (any `s1` that does not end
+    lower), or the backend's chain at that moment is not higher than the wallet's. -/
+theorem C15_rescan_in_flight (cfg : Cfg) (hW : 1 ≤ cfg.W) {w : Wallet} {tip : BlockId} {lo : Nat} {s1 : List Step}
+    {tip1 : BlockId} {lo1 : Nat} {s2 : List Step} {tip2 : BlockId} {lo2 : Nat} (hI : Inv cfg w tip lo)
+    (h1 : ValidRun cfg.W tip lo s1 tip1 lo1) (h2 : ValidRun cfg.W tip1 lo1 s2 tip2 lo2) (atCall now : BlockId)
+    (hnow : atCall.length ≤ tip1.length ∨ now.length ≤ tip1.length) :
+    rescanInFlight cfg w atCall now (runNtfns cfg.C tip s1) (runNtfns cfg.C tip1 s2) = (evolve cfg (w, tip) (s1 ++ s2)).1 ∧
+    Inv cfg (rescanInFlight cfg w atCall now (runNtfns cfg.C tip s1) (runNtfns cfg.C tip1 s2)) tip2 lo2 := by
+  have e := rescanInFlight_follows cfg hW hI h1 atCall now hnow s2
+  exact ⟨e, by rw [e]; exact (run_preserves_inv cfg hW hI (h1.append h2)).1⟩
+
+/-- A reconnect of a wallet in sync with the backend's chain changes nothing: the rollback loop stops at the tip,
+    recovery has nothing to scan, the rescan from the tip reports no transaction.  Together with
+    `C15_rescan_in_flight` (`atCall = tip`): a reorg delivered between the reconnect and its `RescanFinished` is
+    followed like any other. -/
+theorem C15_reconnect_in_sync (cfg : Cfg) {w : Wallet} {tip : BlockId} {lo : Nat} (hI : Inv cfg w tip lo)
+    (recW batch : Nat) : resync cfg recW batch w tip = (w, true) :=
+  resync_inSync hI recW batch
+
+/-- Reconnect, any valid evolution while its rescan is in flight, `RescanFinished`, any valid evolution afterwards. -/
+theorem C15_reconnect_then_reorg_during_rescan (cfg : Cfg) (hW : 1 ≤ cfg.W) {w : Wallet} {tip : BlockId} {lo : Nat}
+    {s1 : List Step} {tip1 : BlockId} {lo1 : Nat} {s2 : List Step} {tip2 : BlockId} {lo2 : Nat} (hI : Inv cfg w tip lo)
+    (recW batch : Nat) (h1 : ValidRun cfg.W tip lo s1 tip1 lo1) (h2 : ValidRun cfg.W tip1 lo1 s2 tip2 lo2)
+    (now : BlockId) (hnow : tip.length ≤ tip1.length ∨ now.length ≤ tip1.length) :
+    (resync cfg recW batch w tip).2 = true ∧
+    Inv cfg (rescanInFlight cfg (resync cfg recW batch w tip).1 tip now (runNtfns cfg.C tip s1) (runNtfns cfg.C tip1 s2))
+      tip2 lo2 := by
+  rw [C15_reconnect_in_sync cfg hI recW batch]
+  exact ⟨rfl, (C15_rescan_in_flight cfg hW hI h1 h2 tip now hnow).2⟩
+
+/-- **Reconnect after an outage** (the backend moved to ANY chain `tip` while the connection was down): the rollback
+    transaction fails and nothing is written (the handler stays in `waitForSync`), or `syncWithChain` reaches its rescan
+    and `RescanFinished` leaves the wallet in sync with `tip` — the state `C15_tip` / `C15_hashes` /
+    `C15_no_offchain_tx` / `C15_rescan_in_flight` start from. -/
+theorem C15_reconnect_total (cfg : Cfg) (hW : 1 ≤ cfg.W) {w : Wallet} {old : BlockId} {lo : Nat}
+    (hI : Inv cfg w old lo) (tip : BlockId) (recW batch : Nat) :
+    ((∃ e, startupRollback cfg w tip = .error e) ∧ resync cfg recW batch w tip = (w, false)) ∨
+    (∃ w1 c, resync cfg recW batch w tip = (w1, true) ∧ IsLastCommon old tip c ∧ old.length ≤ tip.length ∧
+      Inv cfg (handle cfg w1 (.rescanFinished tip tip.length)) tip (startupLo cfg.W lo c tip.length)) :=
+  resync_total cfg hW hI tip recW batch
+
+/-- Start-up is the same `syncWithChain` on the freshly opened, not yet chain-synced wallet; and the version with the
+    notification server computes the same wallet. -/
+theorem C15_startup_is_resync (cfg : Cfg) (recW batch : Nat) (w : Wallet) (tip : BlockId) (during : List Ntfn) (s : NSrv) :
+    startupDuring cfg recW batch w tip during =
+      (if (resync cfg recW batch { w with chainSynced := false } tip).2
+       then process cfg (resync cfg recW batch { w with chainSynced := false } tip).1
+              (during ++ [.rescanFinished tip tip.length])
+       else (resync cfg recW batch { w with chainSynced := false } tip).1,
+       (resync cfg recW batch { w with chainSynced := false } tip).2) ∧
+    ((resyncN cfg recW batch (w, s) tip).1.1, (resyncN cfg recW batch (w, s) tip).2) = resync cfg recW batch w tip :=
+  ⟨startupDuring_eq_resync cfg recW batch w tip during, resyncN_proj cfg recW batch (w, s) tip⟩
+
+/-! Non-vacuity and the counter-example the two seeded changes realise.  The wallet is in sync with `[2,1]`, wallet
+    transaction 7 confirmed in block `[1]`; a rescan is requested (import from genesis, or a reconnect), the backend
+    reorganises to `[4,3]` (depth 2), then `RescanFinished(height 2)`. -/
+def wSync1 : Wallet := (evolve cfg1 (genesisWallet C1, []) [.extend 1 .after, .extend 2 .after]).1
+
+theorem wSync1_inv : Inv cfg1 wSync1 [2, 1] 0 :=
+  (run_preserves_inv cfg1 (by decide) (inv_genesis cfg1 (by decide))
+    (.cons trivial (.cons trivial (.nil _ _)) : ValidRun 10000 [] 0 [.extend 1 .after, .extend 2 .after] [2, 1] 0)).1
+
+theorem window1_valid : ValidRun 10000 [2, 1] 0 [.reorg 2 [3, 4] .after] [4, 3] 0 :=
+  .cons ⟨by decide, by decide⟩ (.nil _ _)
+
+example : wSync1.mined = [⟨⟨7, false⟩, 1, some [1]⟩] := by decide
+/-- the code as it is: the reorg of the window is followed, transaction 7 is unconfirmed again -/
+example :
+    (rescanInFlight cfg1 wSync1 [2, 1] [4, 3] (runNtfns C1 [2, 1] [.reorg 2 [3, 4] .after]) []).syncedTo = stampOf C1 [4, 3] ∧
+    (rescanInFlight cfg1 wSync1 [2, 1] [4, 3] (runNtfns C1 [2, 1] [.reorg 2 [3, 4] .after]) []).mined = [] ∧
+    (rescanInFlight cfg1 wSync1 [2, 1] [4, 3] (runNtfns C1 [2, 1] [.reorg 2 [3, 4] .after]) []).unmined = [⟨7, false⟩] := by
+  decide
+/-- … and the theorem applies to it -/
+example : Inv cfg1 (rescanInFlight cfg1 wSync1 [2, 1] [4, 3] (runNtfns C1 [2, 1] [.reorg 2 [3, 4] .after]) (runNtfns C1 [4, 3] []))
+    [4, 3] 0 :=
+  (C15_rescan_in_flight cfg1 (by decide) wSync1_inv window1_valid (.nil _ _) [2, 1] [4, 3] (Or.inl (by decide))).2
+/-- a wallet marked not chain-synced for the duration of the rescan (seeded changes C02-4 on the reconnect path, C15-5
+    in `rescanRPCHandler`): both disconnects are dropped, the connects of the new branch move the tip, and after
+    `RescanFinished` the wallet reports itself in sync with `[4,3]` while transaction 7 stays confirmed in the stale
+    block `[1]` — for ever: the next start-up's rollback loop finds the tip hash equal to the backend's. -/
+example :
+    (rescanInFlight cfg1 { wSync1 with chainSynced := false } [2, 1] [4, 3] (runNtfns C1 [2, 1] [.reorg 2 [3, 4] .after]) []).syncedTo
+      = stampOf C1 [4, 3] ∧
+    (rescanInFlight cfg1 { wSync1 with chainSynced := false } [2, 1] [4, 3] (runNtfns C1 [2, 1] [.reorg 2 [3, 4] .after]) []).chainSynced
+      = true ∧
+    (rescanInFlight cfg1 { wSync1 with chainSynced := false } [2, 1] [4, 3] (runNtfns C1 [2, 1] [.reorg 2 [3, 4] .after]) []).mined
+      = [⟨⟨7, false⟩, 1, some [1]⟩] ∧
+    (startup cfg1 0 2000
+      (rescanInFlight cfg1 { wSync1 with chainSynced := false } [2, 1] [4, 3] (runNtfns C1 [2, 1] [.reorg 2 [3, 4] .after]) [])
+      [4, 3]).1.mined = [⟨⟨7, false⟩, 1, some [1]⟩] := by
+  decide
+/-- reconnect after an outage during which the backend reorganised `[2,1]` → `[5,4,1]`: rolled back to `[1]`, rescanned,
+    caught up — with and without a recovery window -/
+example : (handle cfg2 (resync cfg2 0 2000 wOld2 [5, 4, 1]).1 (.rescanFinished [5, 4, 1] 3)).syncedTo = stampOf C2 [5, 4, 1] ∧
+    (handle cfg2 (resync cfg2 0 2000 wOld2 [5, 4, 1]).1 (.rescanFinished [5, 4, 1] 3)).mined = [⟨⟨7, false⟩, 2, some [4, 1]⟩] ∧
+    (handle cfg2 (resync cfg2 3 1 wOld2 [5, 4, 1]).1 (.rescanFinished [5, 4, 1] 3)).mined = [⟨⟨7, false⟩, 2, some [4, 1]⟩] := by
+  decide
 
 end SyncTip
